@@ -16,9 +16,15 @@ for f in sorted(glob.glob("/tmp/mx/*/results.tsv")):
         sid, check, rc = parts[0], parts[1], parts[2]
         key = parts[3] if len(parts) > 3 else ""
         if sid not in fresh:
-            res[sid] = {}
+            # a worker that ran every check replaces the entry; an own-check-only run (CHECKS=OWN) updates that column
+            # and keeps the older outcome as rc_first
+            if os.environ.get("MERGE") != "1":
+                res[sid] = {}
             fresh.add(sid)
+        old = res.setdefault(sid, {}).get(check)
         res[sid][check] = {"rc": rc, "key": key}
+        if old is not None and old.get("rc") != rc:
+            res[sid][check]["rc_first"] = old.get("rc_first", old.get("rc"))
 json.dump(res, open(path, "w"), indent=1, sort_keys=True)
 
 notes = {}
